@@ -1241,9 +1241,10 @@ def judge_pstruct(ctx, case, out):
 def stream_pstruct(ctx, n_cases, maxext):
     rng = ctx.rng
     decs = [d for d in all_decompositions(maxext) if int(np.prod([len(a) for a in d])) >= 2]
+    single = [d for d in all_decompositions(maxext) if int(np.prod([len(a) for a in d])) == 1]
     jobs = []
     for _ in range(n_cases):
-        dec = rng.choice(decs)
+        dec = rng.choice(single) if single and rng.random() < 0.12 else rng.choice(decs)     # (an index file listing ONE piece is legal)
         c = grid_case(rng, dec)
         k = int(np.prod([len(a) for a in dec]))
         orders = list(itertools.permutations(range(k))) if k <= 3 else [tuple(rng.sample(range(k), k)) for _ in range(4)] + [tuple(range(k))]
